@@ -131,6 +131,20 @@ CLAIMED["C17"] = dict(
          "parser are additionally compared with the transliterated Lean parser (C10 check).",
 )
 
+CLAIMED["C18"] = dict(
+    text="Theorems about a model of the module-level state (try_compute.depth, Awaiting.awaiting_stack with the is_awaiting flags, "
+         "handle_reports.handlers_stack with the error latch) and of a language of computations built from the three bracket classes, "
+         "emit_report, raise and try/except: every such computation, on every exit path (normal, NotReadyError, DeferredCycle, "
+         "RecoverableError, UnrecoverableError, anything else), restores depth, awaiting stack and handler identities from any state, ends "
+         "in the initial state when started there, and hence a probe after any history of assemblies runs exactly as in a fresh state "
+         "(induction over computations and histories). Tie: random computations executed with the real context managers and exception "
+         "classes against the model (exception in flight, final state, delivered reports); histories of <= 50 real assemblies + probe; "
+         "fresh processes under several PYTHONHASHSEED values; AST audit that the state is only written inside the bracket classes.",
+    design_ref="DESIGN.md §5 C18",
+    technique="Lean 4 theorems (structural induction over a bracket-computation language) + model/implementation correspondence of the real context managers + history and hash-seed runs",
+    note=NOTE + "Partial: hash randomisation, interpreter state and per-token caches are runtime behaviour the model cannot exhibit; they are covered only by the differential runs.",
+)
+
 PENDING_REASON = "check not built yet (build in progress; see DESIGN.md §8 for the order)"
 
 
